@@ -177,7 +177,7 @@ func pmReference(gid int, d *big.Int) []byte {
 
 // genPointMachine writes one judged case per program, and for registers with a small logarithm in
 // G1 / G2 a case for the model's scalar multiplication (the model decides what [d]G is).
-func genPointMachine(rng *hx.Rng, w *hx.Writer, g kyber.Group, gid int, gname string, q *big.Int, nProg int, failKey string, opMul int) {
+func genPointMachine(rng *hx.Rng, w *hx.Writer, g kyber.Group, gid int, gname string, q *big.Int, nProg int, failKey string, mEntry string, opMul int) {
 	baseEnc := PtBytes(g.Point().Base())
 	emitted := map[string]bool{}
 	for it := 0; it < nProg; it++ {
@@ -202,7 +202,11 @@ func genPointMachine(rng *hx.Rng, w *hx.Writer, g kyber.Group, gid int, gname st
 				finals = append(finals, hx.B(enc))
 				if opMul > 0 && r.d.Sign() > 0 && r.d.BitLen() <= 16 && !emitted[r.d.String()] {
 					emitted[r.d.String()] = true
-					w.Put(hx.Case{Entry: "bn", Op: opMul, Args: hx.L(hx.B(baseEnc), hx.Z(r.d)), Impl: hx.B(enc), Oracle: "ok",
+					args := hx.L(hx.B(baseEnc), hx.Z(r.d))
+					if mEntry == "ed" {
+						args = hx.L(hx.Z(r.d))
+					}
+					w.Put(hx.Case{Entry: mEntry, Op: opMul, Args: args, Impl: hx.B(enc), Oracle: "ok",
 						Tags: []string{"history-" + gname, "scalar-mul", "nt"}})
 				}
 			}
